@@ -127,4 +127,37 @@ def planPushes (s : Sender) : List TargetAns → List Route
     | some rs => rs.filter (fun r => r.node != 0 && !(suppressedR s r)) ++ planPushes s ts
     | none => planPushes s ts
 
+
+/-! ### stop / quiesce layer over the shard LTS -/
+
+structure SSt where
+  q : QSt := {}
+  stopping : Bool := false       -- Runtime.Stop closed `acceptDone`
+  finished : List Nat := []      -- serials of plans whose runPlan returned
+
+inductive SL where
+  | q (l : QL)
+  | stop
+  deriving Repr
+
+def sstep (shardOf : Nat → Nat) (st : SSt) : SL → Option SSt
+  | .stop => some { st with stopping := true }
+  | .q (.enq c) =>
+    if st.stopping then none else (qstep shardOf st.q (.enq c)).map (fun q' => { st with q := q' })
+  | .q (.finish sh) =>
+    match st.q.cur sh with
+    | some (p, _, _) => (qstep shardOf st.q (.finish sh)).map (fun q' => { st with q := q', finished := st.finished ++ [p] })
+    | none => none
+  | .q l => (qstep shardOf st.q l).map (fun q' => { st with q := q' })
+
+inductive SReach (shardOf : Nat → Nat) : SSt → Prop where
+  | init : SReach shardOf {}
+  | step {st st' : SSt} (l : SL) : SReach shardOf st → sstep shardOf st l = some st' → SReach shardOf st'
+
+def srun (shardOf : Nat → Nat) : SSt → List SL → Option SSt
+  | st, [] => some st
+  | st, l :: ls => match sstep shardOf st l with
+    | some st' => srun shardOf st' ls
+    | none => none
+
 end WK.C31
